@@ -58,9 +58,11 @@ var noteForms = []struct{ text, name, value string }{
 	{"#  kcal : 2 000 ", "kcal", "2 000"},
 	{"## double hash", "", "double hash"},
 	{"#", "", ""},
+	// longer than bufio's 4096-byte buffer, shorter than the scanner's 64 KiB limit: still one line
+	{"# big: " + strings.Repeat("x y ", 1500), "big", strings.TrimSpace(strings.Repeat("x y ", 1500))},
 }
-var badSyntaxForms = []string{"nosep", "a:1", "x", "\"q\"", "a-b:2"}
-var badNumberForms = []string{"a: x1", "a b", "a: 1,5", "name: 1.2.3", "a: --1", "a: 1e", "b: 0x"}
+var badSyntaxForms = []string{"nosep", "a:1", "x", "\"q\"", "a-b:2", "50%cocoa", "%d%s"}
+var badNumberForms = []string{"a: x1", "a b", "a: 1,5", "name: 1.2.3", "a: --1", "a: 1e", "b: 0x", "milk 2% fat", "cocoa: 70%", "%v: %d"}
 var blankForms = []string{"", "  ", "\t \t", " ", "-", "  - ", ":", "\t-"}
 var commentForms = []string{"# comment", "#", "#  a: 1", "#\tx", "# 2021/01/01:"}
 var indents = []string{"  ", "\t", " ", "    ", "\t\t", " \t"}
@@ -124,6 +126,10 @@ func (c *concretiser) lineText(l absLine) string {
 	case "blank":
 		return c.pick(blankForms)
 	case "comment":
+		if c.rng.Intn(25) == 0 {
+			// a comment line of 4 KiB .. 60 KiB is one line like any other
+			return "# " + strings.Repeat("long comment: 1 ", 260+c.rng.Intn(3400))
+		}
 		return c.pick(commentForms)
 	case "head":
 		h := c.heads[l.H]
